@@ -68,16 +68,33 @@ def c07WritePair (x : AgInfo) (p : AgD) (res : String) (out : List Dg) (id len :
 def dataAccepted (p : AgD) (la src : Nat) : Bool :=
   p.locs.any fun l => l.addr == la && p.rems.any fun r => r.addr == src && r.net == l.net
 
-/-- `read X` -/
-def c07Read (x : AgInfo) (p c : AgD) (res : String) : Verdicts × List Nat :=
-  if x.closed || !x.rxOk then ([], x.rxq.drop 1) else
+/-- the byte count a `Read` answer reports: `read:k` (a whole datagram of `k` bytes) or `short:k`
+(`io.ErrShortBuffer`: `k` bytes of a longer datagram were copied into the caller's buffer) -/
+def readReturned (res : String) : Option Nat :=
+  if res.startsWith "read:" then (res.drop 5).toString.toNat?
+  else if res.startsWith "short:" then (res.drop 6).toString.toNat?
+  else none
+
+/-- `read X [cap]` (caller buffer of `cap` bytes).  Two independent judgements:
+(a) from the implementation's own answer alone — the received-bytes counter moves by exactly the byte count
+the call returned (short reads included), by nothing when it returned no data, and never more than `cap`
+bytes are returned; (b) against the queue of accepted datagrams the monitor keeps — the answer is the next
+accepted datagram, whole (`read:n`) or cut to the buffer (`short:cap`), and the datagram is consumed either way. -/
+def c07Read (x : AgInfo) (p c : AgD) (res : String) (cap : Nat) : Verdicts × List Nat :=
+  let vCount : Verdicts :=
+    match readReturned res with
+    | some k =>
+      (if c.br != p.br + k then [("C07", s!"received-bytes counter moved by {c.br - p.br} for a Read that returned {k} bytes ({res}, buffer {cap})")] else []) ++
+      (if k > cap then [("C07", s!"Read into a buffer of {cap} bytes returned {k} bytes")] else [])
+    | none => if c.br != p.br then [("C07", s!"received-bytes counter moved by {c.br - p.br} for a Read that returned no data ({res})")] else []
+  if x.closed || !x.rxOk then (vCount, x.rxq.drop 1) else
   match x.rxq with
   | [] =>
-    ((if res != "empty" then [("C07", s!"Read returned {res} although no accepted datagram is waiting")] else []) ++
-     (if c.br != p.br then [("C07", "received-bytes counter moved without a Read result")] else []), [])
+    ((if res != "empty" then [("C07", s!"Read returned {res} although no accepted datagram is waiting")] else []) ++ vCount, [])
   | n :: rest =>
-    ((if res != s!"read:{n}" then [("C07", s!"Read returned {res}; the next accepted datagram has {n} bytes")] else []) ++
-     (if c.br != p.br + n then [("C07", s!"received-bytes counter moved by {c.br - p.br} for a Read of {n} bytes")] else []), rest)
+    let want := if cap < n then s!"short:{cap}" else s!"read:{n}"
+    ((if res != want then [("C07", s!"Read into a buffer of {cap} bytes returned {res}; the next accepted datagram has {n} bytes (expected {want})")] else []) ++
+     vCount, rest)
 
 /-- per-pair counters of the pair that stays selected across the op.
 `sent` / `recv`: payload (len > 0) accepted for sending over that pair / accepted inbound in this op; `none` = not judged -/
